@@ -1,11 +1,8 @@
 import ExaModel.Props.C10
 #print axioms Exa.Props.C10.one_notification
-#print axioms Exa.Props.C10.none_after_received_notification_partial
-#print axioms Exa.Props.C10.notification_with_bad_length_is_answered
-#print axioms Exa.Props.C10.code_is_class_partial
-#print axioms Exa.Props.C10.code_is_class_partial_run
-#print axioms Exa.Props.C10.open_in_established_is_ignored
-#print axioms Exa.Props.C10.openwait_is_answered_5_1
+#print axioms Exa.Props.C10.none_after_received_notification
+#print axioms Exa.Props.C10.code_is_class
+#print axioms Exa.Props.C10.code_is_class_run
 #print axioms Exa.Props.C10.f30_witness
 #print axioms Exa.Props.C10.f18_no_hold_timer_in_openconfirm
 #print axioms Exa.Props.C10.hold_and_cease_codes
